@@ -1117,6 +1117,8 @@ class Sim:
             if hook is not None:
                 hook()
         if interleave:
+            # a result processed inside the scan ends the soft limit's claim
+            must_soft = [j for j in must_soft if not j.parts[0]['ready_proc']]
             # a result processed inside the scan may legitimately have won
             allowed |= {j.jid for j in self.jobs.values() if j.obs_step == self.step_no}
             # an ACK processed inside the scan can make a job eligible in this very pass
@@ -1484,7 +1486,13 @@ class Sim:
             if v != b and not unresolved and \
                     not any(j.excused for j in self.jobs.values()):
                 self.viol({'C10'}, 'slots_not_all_free_at_quiescence',
-                          {'send_failed': any(j.send_failed for j in self.jobs.values())},
+                          {'send_failed': any(j.send_failed for j in self.jobs.values()),
+                           # a result that arrived after its job had been failed by the
+                           # hard limit / as lost: the slot then hangs on the worker's exit
+                           'late_result_after_pool_failure': any(
+                               j.obs and j.obs[0] in ('tle', 'lost', 'term') and
+                               j.parts[0]['ready_sent'] for j in self.jobs.values()
+                               if j.kind == 'apply')},
                           value=v, bound=b)
             self.stat('quiescence_checks')
         # consumed counters: every live worker's counter equals the number of
